@@ -628,6 +628,10 @@ fn rand_book(rng: &mut Rng) -> XlsxBook {
             8..=15 => rng.range(6, 40),
             _ => rng.range(41, 400),
         } as usize;
+        if rng.chance(1, 8) {
+            // a part of another sheet kind (the cell reader does not care; the sheet lists must stay parallel)
+            sh.folder = rng.pick(&["dialogsheets", "chartsheets", "macrosheets"]).to_string();
+        }
         if rng.chance(1, 10) {
             dense_displaced(rng, &mut sh);
         } else {
@@ -771,6 +775,36 @@ fn check_file(
         }
         // ---- impl vs oracle: worksheet_range
         let r = guarded(|| wb.worksheet_range(&sh.name));
+        // ---- access by index must be access by the name at that index (the sheet lists are parallel); always when the
+        // book has parts of another sheet kind, else only for sheets whose dense range is cheap
+        let other_kinds = book.sheets.iter().any(|s| s.folder != "worksheets");
+        let small = bbox.map(|((a, b), (c, d))| (c - a + 1) as u64 * (d - b + 1) as u64 <= 200_000).unwrap_or(true);
+        if other_kinds || small {
+            type Sum = (Option<(u32, u32)>, Option<(u32, u32)>, Vec<String>);
+            let sum = |r: &calamine::Range<Data>| -> Sum { (r.start(), r.end(), r.used_cells().map(|(i, j, v)| format!("{i},{j},{}", canon_data(v, true))).collect()) };
+            let by_name: Option<Result<Sum, String>> = match &r {
+                Ok(Ok(range)) => Some(Ok(sum(range))),
+                Ok(Err(e)) => Some(Err(err_class(e))),
+                Err(_) => None,
+            };
+            let by_index: Option<Option<Result<Sum, String>>> =
+                guarded(|| wb.worksheet_range_at(si).map(|r| r.map(|r| sum(&r)).map_err(|e| err_class(&e)))).ok();
+            if let (Some(n), Some(ix)) = (&by_name, &by_index) {
+                if ix.as_ref() != Some(n) {
+                    let show = |x: &Result<Sum, String>| match x {
+                        Ok((s, e, c)) => format!("{s:?}..{e:?} {} cells", c.len()),
+                        Err(e) => format!("err:{e}"),
+                    };
+                    fails.push(Fail {
+                        kind: "impl_vs_spec",
+                        sig: "range-at-index".into(),
+                        imp: format!("worksheet_range_at({si}) = {}", ix.as_ref().map(show).unwrap_or("None".into())),
+                        model: String::new(),
+                        expect: format!("worksheet_range({:?}) = {}", sh.name, show(n)),
+                    });
+                }
+            }
+        }
         match r {
             Err(p) => fails.push(Fail { kind: "impl_vs_spec", sig: "range:panic".into(), imp: p, model: String::new(), expect: expect_txt.clone() }),
             Ok(Err(e)) => fails.push(Fail { kind: "impl_vs_spec", sig: format!("range:{}", err_class(&e)), imp: format!("{e}"), model: String::new(), expect: expect_txt.clone() }),
@@ -1005,6 +1039,8 @@ fn reset_knob(l: &mut Layout, k: usize) {
         _ => {
             l.pct_styles_noise = 0;
             l.pct_spans = 0;
+            l.pct_char_ref = 0;
+            l.pct_end_tag_space = 0;
             l.pct_attr_shuffle = 0;
             l.pct_attr_extra = 0;
             l.pct_t_n_styled = 0;
@@ -1203,6 +1239,8 @@ fn file_case(seed: u64, rep: &mut Report, drv: &mut Driver) {
     rep.count(&format!("knob:rel-decl:{:?}", layout.rel_decl));
     rep.count(&format!("knob:rels-noise:{}", layout.pct_rels_noise));
     rep.count(&format!("knob:spans:{}", layout.pct_spans));
+    rep.count(&format!("knob:char-ref:{}", layout.pct_char_ref));
+    rep.count(&format!("knob:end-tag-space:{}", layout.pct_end_tag_space));
     for sh in &book.sheets {
         for c in sh.cells.values() {
             rep.count(match c.value {
@@ -1383,6 +1421,44 @@ fn corpus_case(name: &str) -> Option<(XlsxBook, Layout)> {
             l.pct_row_ref = 0;
             l.seed = 11;
         }
+        // seeded change C01-m17: the text of <v> written as character references, for every cell type
+        "char-refs-in-v" => {
+            book.cell_xfs = vec![0, 14];
+            sh.set(0, 0, XCell::shared("zero"));
+            sh.set(0, 1, XCell::shared("one"));
+            sh.set(0, 2, XCell::new(XVal::Bool(false)));
+            sh.set(0, 3, XCell::new(XVal::Bool(true)));
+            sh.set(1, 0, XCell::new(XVal::Err("#N/A".into())));
+            sh.set(1, 1, XCell::new(XVal::IsoDate("2021-01-05T10:00:00".into())));
+            sh.set(1, 2, XCell::num("44197.5").with_style(1));
+            sh.set(1, 3, XCell::new(XVal::FormulaStr("a<b".into())));
+            l.pct_char_ref = 100;
+            l.pct_t_n = 100;
+            l.pct_sst_dedupe = 100;
+        }
+        // seeded change C01-m18: white space before the `>` of end tags, with implicit row and cell references
+        "end-tag-space" => {
+            for r in 0..4u32 {
+                sh.set(r, 0, XCell::num("1"));
+                sh.set(r, 1, XCell::shared("s"));
+                sh.set(r, 2, XCell::inline("i"));
+            }
+            l.pct_end_tag_space = 100;
+            l.pct_self_close = 0;
+            l.pct_row_ref = 0;
+            l.pct_cell_ref = 0;
+        }
+        // seeded change C01-m19: a dialog sheet part in front of worksheets; access by index = access by name
+        "dialogsheet-first" => {
+            let mut d = XlsxSheet::new("Dialog1");
+            d.folder = "dialogsheets".into();
+            d.set(0, 0, XCell::num("111"));
+            book.sheets.push(d);
+            sh.set(1, 1, XCell::num("222"));
+            book.sheets.push(sh.clone());
+            sh = XlsxSheet::new("Last");
+            sh.set(2, 2, XCell::num("333"));
+        }
         // the structure around the format table is not the format table
         "styles-noise" => {
             book.num_fmts = custom_fmts();
@@ -1411,7 +1487,7 @@ fn corpus_case(name: &str) -> Option<(XlsxBook, Layout)> {
 
 const CORPUS: &[&str] = &[
     "d20-empty-si", "d21-prefixed-rich", "d21-prefixed-rich-inline", "d22-prefixed-workbookpr", "d23-rel-prefix", "implicit-refs", "corners", "blank-only",
-    "upper-parts", "xf-without-numfmtid", "styles-noise", "row-style-date", "rel-decl-sheets", "rel-decl-sheet", "rel-decl-split", "rel-prefix-named-id", "container-all", "dense-stale-dimension", "dense-first-last", "spans-hint", "raw:row-cursor-overflow", "raw:col-cursor-overflow", "raw:sst-index-out-of-range", "raw:reversed-dimension", "raw:overlong-ref",
+    "upper-parts", "xf-without-numfmtid", "styles-noise", "row-style-date", "rel-decl-sheets", "rel-decl-sheet", "rel-decl-split", "rel-prefix-named-id", "container-all", "dense-stale-dimension", "dense-first-last", "spans-hint", "char-refs-in-v", "end-tag-space", "dialogsheet-first", "raw:row-cursor-overflow", "raw:col-cursor-overflow", "raw:sst-index-out-of-range", "raw:reversed-dimension", "raw:overlong-ref",
 ];
 
 /// hand-written worksheet parts (events) for the malformed-input regressions
